@@ -114,6 +114,40 @@ pub fn corrupt(d: &mut D) {
         d.decode(5, &q);
         d.process(5, &q);
     }
+    // byte strings longer than any SMBus packet: a valid maximum-size packet followed by more bytes,
+    // and valid packets of every kind with trailing bytes; the last byte is not the PEC of the rest
+    for kind in ["pci", "iana", "spdm", "secured", "control"] {
+        for total in [259usize, 258, 200] {
+            let mut data = d.g.bytes(total - 10);
+            if kind == "control" {
+                data[0] = 0x80;
+                data[1] = 0x02;
+            }
+            let p = d.enc_gen(1, "req", kind, json!({"dst":0x23,"has_hdr":0,"hdr":[],"data":jb(&data)}), 300);
+            if p.is_empty() {
+                continue;
+            }
+            for extra in [1usize, 2, 3, 9, 41, 300] {
+                for _ in 0..3 {
+                    let mut q = p.clone();
+                    q.extend_from_slice(&d.g.bytes(extra));
+                    if crc8(&q[..q.len() - 1]) == q[q.len() - 1] {
+                        let n = q.len();
+                        q[n - 1] ^= 0x55;
+                    }
+                    d.decode(5, &q);
+                    d.process(5, &q);
+                }
+                // ... and the same length with a PEC that is right for the whole string
+                let mut q = p.clone();
+                q.extend_from_slice(&d.g.bytes(extra));
+                fix_pec(&mut q);
+                d.decode(5, &q);
+                d.process(5, &q);
+            }
+        }
+    }
+    probes(d, 5, 1);
     for p in pkts.iter() {
         for delta in 1..=255u8 {
             if !d.thorough && delta % 16 != 1 {
@@ -258,6 +292,25 @@ pub fn robust(d: &mut D) {
                 all3(d, &q);
                 fix_pec(&mut q);
                 all3(d, &q);
+            }
+        }
+    }
+    // nine-byte inputs whose message-type byte happens to equal the PEC of the eight bytes before it
+    // (headers complete, PEC "right", no room for a payload)
+    for t in [0x05u8, 0x06, 0x7E, 0x7F, 0x00] {
+        let mut found = 0;
+        'search: for b5 in 0..=255u8 {
+            for b6 in 0..=255u8 {
+                let mut q = vec![0x46u8, 0x0F, 5, 0x69, 0x01, b5, b6, 0xC8];
+                if crc8(&q) == t {
+                    q.push(t);
+                    all3(d, &q);
+                    found += 1;
+                    if found >= 6 {
+                        break 'search;
+                    }
+                    break;
+                }
             }
         }
     }
